@@ -460,6 +460,12 @@ func runPipe(p *PipePlan, ch *simrt.Choices, trace bool, adopt map[string][]byte
 	resetGlobals(c)
 	sim.Boot.Args = bootArgs(c)
 	sim.Boot.Env = c.Env
+	if c.TmpOtherFS {
+		sim.Boot.Env = map[string]string{"TMPDIR": "/var/tmp"}
+		for k, v := range c.Env {
+			sim.Boot.Env[k] = v
+		}
+	}
 
 	sim.GoNamed("main", false, func() {
 		main()
